@@ -896,7 +896,7 @@ int corr(uint64_t seed, const std::string& tier, const std::string& outdir) {
     vh::Sink sink(outdir);
     vh::Rng rng(seed);
     const std::string consts = constsEnc();
-    const int N = tierN(tier, 360, 3000);
+    const int N = tierN(tier, 360, 8000);
     for (int it = 0; it < N; ++it) {
         Gen g{ rng, false, it % 4 == 3 };
         auto ks = g.schedule(rng.range(1, it % 10 == 0 ? 12 : 6));
@@ -1122,7 +1122,7 @@ int prop(uint64_t seed, const std::string& tier, const std::string& outdir) {
     vh::PropLog log(outdir + "/prop.txt");
     std::map<std::string, long> stats;
     vh::Rng rng(seed * 7919 + 17);
-    const int N = tierN(tier, 150, 1200);
+    const int N = tierN(tier, 150, 3000);
     for (int it = 0; it < N; ++it) {
         Gen g{ rng, true, it % 3 == 0 };
         int nsteps = rng.range(2, it % 10 == 0 ? 10 : 5);
@@ -1231,7 +1231,7 @@ int acorr(uint64_t seed, const std::string& tier, const std::string& outdir) {
     vh::Sink sink(outdir);
     vh::Rng rng(seed * 31 + 5);
     const std::string consts = constsEnc();
-    const int N = tierN(tier, 420, 3000);
+    const int N = tierN(tier, 420, 8000);
     for (int it = 0; it < N; ++it) {
         Gen g{ rng, false, true };
         auto ks = g.schedule(rng.range(2, 6));
@@ -1278,7 +1278,7 @@ int aprop(uint64_t seed, const std::string& tier, const std::string& outdir) {
     vh::PropLog log(outdir + "/prop.txt");
     std::map<std::string, long> stats;
     vh::Rng rng(seed * 131 + 3);
-    const int N = tierN(tier, 320, 2500);
+    const int N = tierN(tier, 320, 6000);
     for (int it = 0; it < N; ++it) {
         Gen g{ rng, it % 2 == 0, true };
         auto ks = g.schedule(rng.range(2, 6));
